@@ -413,40 +413,42 @@ def strategies():
 
     @st.composite
     def case(draw):
-        nv = draw(st.integers(2, 5))
-        pool = draw(st.lists(st.sampled_from(PTYPES), min_size=2, max_size=5, unique=True))
-        base = draw(st.sampled_from([0, 1, 1, 1, 2, 2, 2, 3]))
-        pos = draw(st.sampled_from(["synth", "check", "check", "nested"]))
+        # all choices from one random.Random drawn from Hypothesis (uniform at every position;
+        # Hypothesis' own draws are biased towards the first list elements and repeat examples)
+        rnd = draw(st.randoms(use_true_random=True))
+        nv = rnd.randint(2, 5)
+        pool = rnd.sample(PTYPES, rnd.randint(2, 5))
+        base = rnd.choice([0, 1, 1, 1, 2, 2, 2, 3])
+        pos = rnd.choice(["synth", "check", "check", "nested"])
         variants = []
         for _ in range(nv):
-            ar = base if draw(st.integers(0, 4)) else draw(st.integers(0, 3))
-            params = [draw(st.sampled_from(pool)) for _ in range(ar)]
+            ar = base if rnd.randrange(5) else rnd.randint(0, 3)
+            params = [rnd.choice(pool) for _ in range(ar)]
             if pos == "nested":
                 ret = "int"
             else:
                 rts = list(RTYPES) + (["T"] if params and params[0] == "T" else [])
-                ret = draw(st.sampled_from(rts))
+                ret = rnd.choice(rts)
             variants.append({"params": params, "ret": ret})
         # arguments: mostly aimed at one of the variants so that accepted calls are common
-        mode = draw(st.integers(0, 9))
-        if mode < 7:
-            tgt = variants[draw(st.integers(0, nv - 1))]
+        if rnd.randrange(10) < 7:
+            tgt = rnd.choice(variants)
             args = []
             for p in tgt["params"]:
                 c = [a["e"] for a in ARGS if plausible(p, a)] or [a["e"] for a in ARGS]
-                args.append(draw(st.sampled_from(c)))
+                args.append(rnd.choice(c))
         else:
-            n = base if draw(st.integers(0, 3)) else draw(st.integers(0, 3))
-            args = [draw(st.sampled_from(ARGS))["e"] for _ in range(n)]
+            n = base if rnd.randrange(4) else rnd.randint(0, 3)
+            args = [rnd.choice(ARGS)["e"] for _ in range(n)]
         # the same array variable twice would be a borrow error after overload resolution
         alt = {"a2": "array(133, 134)", "a3": "array(135, 136, 137)", "fa2": "array(138.5, 139.5)"}
         args = [alt[a] if a in alt and a in args[:j] else a for j, a in enumerate(args)]
         # a `-> T` variant returns its first argument: keep that observable through `result`
         if any(v["ret"] == "T" for v in variants) and args and ARG_BY_TEXT[args[0]]["t"] not in SCALAR:
-            args[0] = draw(st.sampled_from([a["e"] for a in ARGS if a["t"] in SCALAR]))
+            args[0] = rnd.choice([a["e"] for a in ARGS if a["t"] in SCALAR])
         c = {"variants": variants, "args": args, "pos": pos}
         if pos == "check":
-            c["rt"] = draw(st.sampled_from(RTYPES))
+            c["rt"] = rnd.choice(RTYPES)
         return c
 
     return case(), st.lists(case(), min_size=1, max_size=1)
@@ -555,8 +557,20 @@ def worker(ctx):
                 totals["generr"] += 1
                 ctx.harness_error(r["detail"] + "\n" + render_case(case))
 
-    harness.hyp_search(ctx, st.lists(one, min_size=B, max_size=B), body, max_examples=ctx.params["n"], chunk=5,
-                       time_frac=0.7)
+    # one case per Hypothesis example (B cases in one example would overrun Hypothesis' entropy
+    # buffer and bias the later cases towards minimal draws); B examples are evaluated together
+    pending = []
+
+    def collect(case):
+        pending.append(case)
+        if len(pending) >= B:
+            batch = list(pending)
+            del pending[:]
+            body(batch)
+
+    harness.hyp_search(ctx, one, collect, max_examples=ctx.params["n"] * B, chunk=B * 2, time_frac=0.7)
+    if pending and not ctx.out_of_time(0.7):
+        body(list(pending))
     if totals["n"] >= 40 and totals["outside"] > 0.05 * totals["n"]:
         ctx.harness_error(f"{totals['outside']}/{totals['n']} cases had a direct call crashing or rejected after type checking (generator leaves C15's domain)")
     for b, (case, detail, raw_bucket) in sorted(viol.items()):
